@@ -101,7 +101,22 @@ class TaggedSerDes(SerDes):
         return json.loads(data[4:])
 
 
-SERDES = {None: None, "json": JsonSerDes(), "utf8json": Utf8JsonSerDes(), "tagged": TaggedSerDes()}
+class ContextBoundSerDes(SerDes):
+    """Binds every payload to the operation and execution it was written for (as an envelope-encrypting or storage-key based
+    serdes does): reading it back under another context is an error."""
+
+    def serialize(self, value, ctx):
+        return json.dumps({"op": getattr(ctx, "operation_id", None), "arn": getattr(ctx, "durable_execution_arn", None), "v": value})
+
+    def deserialize(self, data, ctx):
+        d = json.loads(data)
+        if d.get("op") != getattr(ctx, "operation_id", None) or d.get("arn") != getattr(ctx, "durable_execution_arn", None):
+            msg = "payload is bound to another operation/execution"
+            raise ValueError(msg)
+        return d["v"]
+
+
+SERDES = {None: None, "json": JsonSerDes(), "utf8json": Utf8JsonSerDes(), "tagged": TaggedSerDes(), "ctxbound": ContextBoundSerDes()}
 
 
 class CapLogger:
